@@ -1143,6 +1143,8 @@ func (s *Sim) Advance(d time.Duration) Verdict {
 
 // Teardown kills whatever is still alive and waits until every task goroutine has exited.
 func (s *Sim) Teardown() (leaked int) {
+	defer dropPools(s)
+
 	s.wait()
 	atomic.StoreInt32(&s.dead, 1)
 	close(s.killCh)
